@@ -303,6 +303,9 @@ ob("font_widths_commute", ["C19"], "font.rs", unwind=16, timeout=1200, mem_gb=12
 ob("func_sampled_2d_total", ["C14"], "func.rs", unwind=8, cuts=X1_ERR, stubs=[FMT_STUB], timeout=1500, mem_gb=16,
    functions=["object::function::SampledFunction::apply", "object::function::SampledFunctionInput::map", "object::function::SampledFunctionOutput::map"],
    bound="2 inputs, 1 output, 4 sample bytes; every f32 /Domain, /Encode, /Decode, every u32 /Size, every f32 argument pair: no panic")
+ob("func_sampled_3d_total", ["C14"], "func.rs", unwind=8, cuts=X1_ERR, stubs=[FMT_STUB], timeout=2400, mem_gb=16, tier="thorough",
+   functions=["object::function::SampledFunction::apply", "object::function::SampledFunctionInput::map", "object::function::SampledFunctionOutput::map"],
+   bound="3 inputs, 1 output, 4 sample bytes; every f32 /Domain, /Encode, /Decode, every u32 /Size, every f32 argument triple: no panic")
 ob("font_widths_group_shapes", ["C19"], "font.rs", unwind=16, timeout=1200, mem_gb=12, functions=WFN + ["font::Widths::set"],
    bound="6 concrete (first_char, len, group start, group length) shapes; one array-form /W group applied as Font::widths does "
          "(ensure_cid, then set per element); entries/default/widths over all u16 values; every queried code 0..=14")
@@ -311,6 +314,9 @@ ob("font_widths_group_shapes", ["C19"], "font.rs", unwind=16, timeout=1200, mem_
 # object/function.rs: C14 / C01 (numeric extremes in PostScript calculator and sampled functions)
 # ---------------------------------------------------------------------------------------------------------------------
 PSFN = ["object::function::PsFunc::exec", "object::function::PsFunc::exec_inner"]
+# reach-guard: with a symbolic count the rotation itself must be unreachable (an error is returned before it); its body is replaced
+# by assert(false) so that CBMC does not unwind a rotation by a symbolic amount. Reaching it makes the run inconclusive.
+ROT_GUARD = [r"^core::slice::<impl \[f32\]>::rotate_(right|left)$"]
 for l_ in (0, 1, 2, 3):
     ob("func_ps_ops_l%d" % l_, ["C14"], "func.rs", unwind=8, cuts=X1_ERR, stubs=[FMT_STUB], timeout=900, mem_gb=12, functions=PSFN,
        bound="stack of %d arbitrary f32 values; dup exch add sub mul abs pop cvr, integer and real literals with arbitrary values; "
@@ -323,8 +329,10 @@ for l_ in (1, 2, 3):
        bound="stack of %d arbitrary f32 values, 'n j roll' for every concrete n in 0..=%d and j in -%d..=%d" % (l_, l_, l_ + 1, l_ + 1))
 for l_ in (0, 2):
     ob("func_ps_roll_hostile_l%d" % l_, ["C14"], "func.rs", unwind=8, cuts=X1_ERR, stubs=[FMT_STUB], timeout=900, mem_gb=12, functions=PSFN,
+       guards=ROT_GUARD,
        bound="stack of %d values, 'n j roll' for every f32 n >= %d and every f32 j: an error" % (l_, l_ + 1))
 ob("func_ps_roll_degenerate", ["C14"], "func.rs", unwind=8, cuts=X1_ERR, stubs=[FMT_STUB], timeout=900, mem_gb=12, functions=PSFN,
+   guards=ROT_GUARD,
    bound="stack of 2 values, 'n j roll' for every f32 n that is not positive (negative, zero, NaN) and every f32 j: no panic")
 ob("func_sampled_1d_total", ["C14"], "func.rs", unwind=8, cuts=X1_ERR, stubs=[FMT_STUB], timeout=900, mem_gb=12,
    functions=["object::function::SampledFunction::apply", "object::function::SampledFunctionInput::map", "object::function::SampledFunctionOutput::map"],
